@@ -63,6 +63,20 @@ def _compute(tier):
             continue
         findings.append(("C02", site, kind, "%s: %r -> %r" % (name, text, out), rp))
     cov["multi_line_structure"] = {"synthetic_cases": synth["cases"], "synthetic_by_owner": synth["by_owner"], "synthetic_mismatches": synth["n_mismatch"], "per_violation_replayed": viol["violations"], "per_violation_by_owner": viol["by_owner"], "per_violation_mismatches": viol["n_mismatch"], "witnesses_replayed_on_real_classes": nw, "whole_file_texts": len(props_bmulti.FILES)}
+    # ---- structure family (insert / remove / parentheses / split): synthetic regions through the real classes and
+    # the Lean functions, Lean witnesses and whole-file reproductions on the real code
+    import bsynth_struct
+
+    recs = bsynth_struct.synthetic_records(150 if tier == "quick" else 1500, sd)
+    nok, nexc, fam, mism = bsynth_struct.replay(recs)
+    for m in mism[:3]:
+        breaks.append(("bfix synthetic correspondence (structure family)", m))
+    nwit = 0
+    for name, ok, detail in bsynth_struct.witnesses():
+        nwit += 1
+        if not ok:
+            breaks.append(("Lean witness / whole-file reproduction of the structure family no longer holds on the real code: %s" % name, {"detail": detail[:400]}))
+    cov["structure"] = {"synthetic_cases": len(recs), "results": nok, "real_exceptions": nexc, "by_family": fam, "synthetic_mismatches": len(mism), "witnesses_replayed_on_real_classes": nwit}
     return {"breaks": breaks, "findings": findings, "coverage": cov}
 
 
